@@ -564,4 +564,15 @@ def check(c, tier, replay):
                       'TLC model checking is exhaustive only for the small instances listed in tlc_runs']
 
 
+_check_without_pipeline = check
+
+
+def check(c, tier, replay):
+    _check_without_pipeline(c, tier, replay)
+    if tier == 'thorough' and not replay:
+        # the whole metric pipeline (Entry/Exit -> statistics -> aggregator -> writer -> files -> searcher), see checks/PIPELINE.py
+        import stages
+        stages.run_stage(c, 'PIPELINE', 'pipeline_stage')
+
+
 main('C17', check)
